@@ -243,7 +243,7 @@ def empty_blocks_family():
 
 def families(tier):
     if tier == 'quick':
-        return [empty_blocks_family(),
+        return [empty_blocks_family(), UnrollFamily(NestedSpace2(2, reps=(('reg', 2), ('reg', 3)), atoms=[('X', 0), ('M', 0), ('R', 1)]), 'H', top_reps=(1, 2)),
                 UnrollFamily(NestedSpace2(2)), UnrollFamily(NestedSpace1(3)),
                 UnrollFamily(NestedSpace1(2, reps=(1, 2, 3), bodies=N1_BODIES + N1_BODIES_EXTRA), 'H', top_reps=(1, 2, ('reg', 3))),
                 UnrollFamily(TwoLevelSpace(1), 'D', top_reps=(1, 2)), LibraryUnroll()]
